@@ -27,16 +27,20 @@ S_none == <<>>       S_1 == <<1>>         S_2 == <<2>>
 S_11 == <<1, 1>>     S_12 == <<1, 2>>     S_23 == <<2, 3>>
 S_111 == <<1, 1, 1>> S_213 == <<2, 1, 3>>
 
+Bit(x, i) == (x \div (2 ^ i)) % 2 = 1
 KAddNode == 1  KAddEdge == 2  KDelEdge == 3  KDelNode == 4  KSwap == 5
 KSetAttr == 6  KUndo == 7     KRedo == 8     KPaint == 9
+KEnable == 10  KDisable == 11
+\* bit i of a feature mask (calls 10 / 11); bit 8 = a feature nobody manages
+FeatBits == <<"area", "iou", "circ", "lid", "pos", "tid", "perim", "axes">>
+FeatSet(m) == {FeatBits[i] : i \in {j \in 1..Len(FeatBits) : Bit(m, j - 1)}}
 
-Bit(x, i) == (x \div (2 ^ i)) % 2 = 1
 
 \* position a caller gives node n when there is no segmentation (2 axes)
 UserPos(n) == << <<n, 1>>, <<2 * n + 1, 2>> >>
 
 KeyName(k) == CASE k = 1 -> "cust" [] k = 2 -> "time" [] k = 3 -> "tid" [] k = 4 -> "lid"
-                [] k = 5 -> "pos" [] k = 6 -> "area" [] OTHER -> "cust"
+                [] k = 5 -> "pos" [] k = 6 -> "area" [] k = 7 -> "iou" [] k = 8 -> "circ" [] OTHER -> "cust"
 
 \* pixels of frame t selected by the bit mask over in-frame positions
 Stroke(t, bits) == {q \in Pix : FrameOf(q) = t /\ Bit(bits, InFrame(q))}
@@ -49,7 +53,9 @@ AddNodeArgs(c) ==
 \* results are normalised to [s, ok, err, emit, ret]
 Norm(r) == [s |-> r.s, ok |-> r.ok, err |-> r.err, emit |-> r.emit, ret |-> r.ok]
 
-IsEdit(c) == c[1] \notin {KUndo, KRedo}
+IsEdit(c) == c[1] \notin {KUndo, KRedo, KEnable, KDisable}
+IsSwitch(c) == c[1] \in {KEnable, KDisable}
+NormSw(r) == [s |-> r.s, ok |-> r.ok, err |-> r.err, emit |-> r.emit, ret |-> r.ok]
 Ords(c) == IF c[1] = KPaint THEN {1, 2, 3, 4} ELSE IF c[1] \in {KAddNode, KDelNode} THEN {1, 2} ELSE {1}
 
 StepOrd(S, c, ord) ==
@@ -61,6 +67,8 @@ StepOrd(S, c, ord) ==
       [] c[1] = KSetAttr -> Norm(UUpdAttrs(S, c[2], KeyName(c[3]), c[4]))
       [] c[1] = KUndo    -> Undo(S)
       [] c[1] = KRedo    -> Redo(S)
+      [] c[1] = KEnable  -> NormSw(Enable(S, FeatSet(c[2]), Bit(c[2], 8), c[3] = 1))
+      [] c[1] = KDisable -> NormSw(Disable(S, FeatSet(c[2]), Bit(c[2], 8)))
       [] c[1] = KPaint   ->
             LET st == Stroke(c[2], c[3])
             IN Norm(UPaint(PaintedSeg(S, st, c[4]), S.seg, st, c[4], c[5] \div 2, c[5] % 2 = 1, ord))
@@ -71,7 +79,7 @@ StepSet(S, c) == {StepOrd(S, c, o) : o \in Ords(c)}
 (***************************************************************************)
 Obs(S) == [time |-> S.time, E |-> S.E, tid |-> S.tid, lid |-> S.lid, t2n |-> S.t2n, l2n |-> S.l2n,
            maxT |-> S.maxT, maxL |-> S.maxL, cust |-> S.cust, pos |-> S.pos, area |-> S.area,
-           iou |-> S.iou, seg |-> S.seg, act |-> S.act, reg |-> S.reg,
+           iou |-> S.iou, seg |-> S.seg, act |-> S.act, reg |-> S.reg, shp |-> S.shp, shpv |-> S.shp, ecust |-> S.ecust,
            ulen |-> Len(S.U), rlen |-> Len(S.R)]
 
 (***************************************************************************)
@@ -91,7 +99,7 @@ Forest(O) ==
     /\ \A e \in O.E : Has(O, e[1]) /\ Has(O, e[2]) /\ O.time[e[1]] < O.time[e[2]]
     /\ \A n \in Present(O) : InDeg(O, n) <= 1 /\ OutDeg(O, n) <= 2
 
-TidOK(O) == \A a \in Present(O) :
+TidOK(O) == ("tid" \in O.act) => \A a \in Present(O) :
                /\ O.tid[a] # None
                /\ \A b \in Present(O) : (O.tid[a] = O.tid[b]) <=> (b \in Segment(O, a))
 LidOn(O) == "lid" \in O.act
@@ -99,7 +107,8 @@ LidOK(O) == LidOn(O) => \A a \in Present(O) :
                /\ O.lid[a] # None
                /\ \A b \in Present(O) : (O.lid[a] = O.lid[b]) <=> (b \in Comp(O, a))
 
-LookupOK(O) ==
+TidOn(O) == "tid" \in O.act
+LookupOK(O) == TidOn(O) =>
     /\ O.t2n = {<<O.tid[n], n>> : n \in Present(O)}
     /\ \A n \in Present(O) : O.tid[n] <= O.maxT
     /\ LidOn(O) => /\ O.l2n = {<<O.lid[n], n>> : n \in Present(O)}
@@ -124,11 +133,17 @@ IoUOK(O) == (HasSeg /\ "iou" \in O.act) =>
     \A e \in O.E : LET r == IoURef(MaskOf(O, e[1]), MaskOf(O, e[2]))
                    IN r[2] # 0 => RatEq(O.iou[e], r)
 
+\* active shape features were computed from the node's current mask
+ShapeOK(O) == HasSeg => \A k \in ShapeKeys \cap O.act : \A n \in Present(O) :
+                 MaskOf(O, n) # {} => O.shp[k][n] = MaskOf(O, n)
+\* the registry lists exactly the static plus the enabled features
+Static(O) == O.reg \ Available
+RegistryOK(O) == O.reg \cap Available = O.act
 Valid(O) == Forest(O) /\ TidOK(O) /\ LidOK(O) /\ LookupOK(O) /\ SegOK(O)
-            /\ AreaOK(O) /\ PosOK(O) /\ IoUOK(O)
+            /\ AreaOK(O) /\ PosOK(O) /\ IoUOK(O) /\ ShapeOK(O)
 \* the state predicates of a pre-state, computed once per state (x.pf)
 PF(O) == [forest |-> Forest(O), tid |-> TidOK(O), lid |-> LidOK(O), look |-> LookupOK(O),
-          seg |-> SegOK(O), meas |-> AreaOK(O) /\ PosOK(O), iou |-> IoUOK(O)]
+          seg |-> SegOK(O), meas |-> AreaOK(O) /\ PosOK(O) /\ ShapeOK(O), iou |-> IoUOK(O)]
 PFValid(f) == f.forest /\ f.tid /\ f.lid /\ f.look /\ f.seg /\ f.meas /\ f.iou
 
 (***************************************************************************)
@@ -143,14 +158,22 @@ ObsEq(A, B) ==
     /\ ("area" \in A.reg => A.area = B.area)
     /\ ("pos" \in A.reg => \A n \in Node : PosEq(A.pos[n], B.pos[n]))
     /\ ("iou" \in A.reg => \A e \in A.E : RatEq(A.iou[e], B.iou[e]))
+    /\ \A k \in ShapeKeys \cap A.reg : A.shpv[k] = B.shpv[k]
+    /\ ("ecust" \in A.reg => A.ecust = B.ecust)
 \* C11 / C16: everything observable, all attributes, lookups, history lengths, registry
-FullEq(A, B) ==
+FullEq0(A, B) ==
     /\ A.time = B.time /\ A.E = B.E /\ A.seg = B.seg
-    /\ A.tid = B.tid /\ A.lid = B.lid /\ A.cust = B.cust /\ A.area = B.area
+    /\ A.tid = B.tid /\ A.lid = B.lid /\ A.cust = B.cust /\ A.area = B.area /\ A.ecust = B.ecust
     /\ \A n \in Node : PosEq(A.pos[n], B.pos[n])
     /\ \A e \in A.E : RatEq(A.iou[e], B.iou[e])
     /\ A.t2n = B.t2n /\ A.l2n = B.l2n
     /\ A.ulen = B.ulen /\ A.rlen = B.rlen /\ A.reg = B.reg /\ A.act = B.act
+FullEq(A, B) == FullEq0(A, B) /\ A.shpv = B.shpv
+\* model state vs recorded real state: shape values are compared through freshness of the
+\* ACTIVE shape features only (the model abstracts a shape value by the mask it came from)
+RefEq(M, R) == /\ FullEq0(M, R) /\ M.maxT = R.maxT /\ M.maxL = R.maxL
+               /\ \A k \in ShapeKeys \cap M.act : \A n \in Present(M) :
+                     (M.shp[k][n] = MaskOf(M, n)) <=> (R.shp[k][n] = MaskOf(R, n))
 
 (***************************************************************************)
 (* Transition predicates.  x = [pre, c, ok, err, emit, post] (observables) *)
@@ -207,15 +230,47 @@ Touched(x) == LET pn == {n \in Node : n \in NamedNodes(x.c)}
               IN pn \cup pt \cup po
 Untouched(x) == {n \in Present(x.pre) \cap Present(x.post) :
                     (Comp(x.pre, n) \cup Comp(x.post, n)) \cap Touched(x) = {}}
-P_C04(x) == (x.pf.forest /\ x.pf.tid /\ x.ok) =>
+P_C04(x) == (x.pf.forest /\ x.pf.tid /\ x.ok /\ ~IsSwitch(x.c)) =>
     /\ TidOK(x.post)
     /\ (IsEdit(x.c) => \A n \in Untouched(x) : x.post.tid[n] = x.pre.tid[n])
-P_C05(x) == (x.pf.forest /\ x.pf.lid /\ LidOn(x.pre) /\ x.ok) =>
+P_C05(x) == (x.pf.forest /\ x.pf.lid /\ LidOn(x.pre) /\ x.ok /\ ~IsSwitch(x.c)) =>
     /\ LidOK(x.post)
     /\ (IsEdit(x.c) => \A n \in Untouched(x) : x.post.lid[n] = x.pre.lid[n])
 
 \* --- C06 (state part; the query part needs the recorded answers) --------
-P_C06(x) == (x.pf.forest /\ x.pf.tid /\ x.pf.lid /\ x.pf.look) => LookupOK(x.post)
+P_C06(x) == (x.pf.forest /\ x.pf.tid /\ x.pf.lid /\ x.pf.look /\ ~IsSwitch(x.c)) => LookupOK(x.post)
+
+\* --- C10 ---------------------------------------------------------------
+\* value of feature k on the elements that survive the call (for "a disabled feature is not changed")
+\* (an edge that a forced add-edge removes and re-creates is a new edge, not a surviving one)
+SameFeature(k, A, B, c) ==
+    LET sv == Present(A) \cap Present(B)
+        se == (A.E \cap B.E) \ (IF c[1] = KAddEdge THEN {<<c[2], c[3]>>} ELSE {}) IN
+    CASE k = "tid"  -> \A n \in sv : A.tid[n] = B.tid[n]
+      [] k = "lid"  -> \A n \in sv : A.lid[n] = B.lid[n]
+      [] k = "area" -> \A n \in sv : A.area[n] = B.area[n]
+      [] k = "pos"  -> \A n \in sv : PosEq(A.pos[n], B.pos[n])
+      [] k = "iou"  -> \A e \in se : RatEq(A.iou[e], B.iou[e])
+      [] OTHER      -> \A n \in sv : A.shpv[k][n] = B.shpv[k][n]
+ManagedKey(c) == c[1] = KSetAttr /\ KeyName(c[3]) \in (Available \cup {"time"})
+P_C10(x) ==
+    /\ RegistryOK(x.pre) => RegistryOK(x.post)
+    \* unknown feature: KeyError and nothing changes
+    /\ (IsSwitch(x.c) /\ (Bit(x.c[2], 8) \/ ~(FeatSet(x.c[2]) \subseteq Available)))
+          => (~x.ok /\ x.err = "KeyError" /\ FullEq(x.post, x.pre))
+    \* enabling with recomputation: reference values for the current state, whatever came before
+    /\ (x.c[1] = KEnable /\ x.ok /\ x.c[3] = 1 /\ x.pf.forest /\ x.pf.seg)
+          => LET K == FeatSet(x.c[2]) IN
+             /\ K \subseteq x.post.act
+             /\ ("tid" \in K => TidOK(x.post) /\ LookupOK(x.post))
+             /\ ("lid" \in K => LidOK(x.post) /\ LookupOK(x.post))
+             /\ ("area" \in K => AreaOK(x.post)) /\ ("pos" \in K => PosOK(x.post))
+             /\ ("iou" \in K => IoUOK(x.post)) /\ (K \cap ShapeKeys # {} => ShapeOK(x.post))
+    /\ (x.c[1] = KDisable /\ x.ok) => (FeatSet(x.c[2]) \cap x.post.act = {})
+    \* a disabled feature is not changed by edits (nor by undo / redo)
+    /\ (~IsSwitch(x.c)) => \A k \in Available \ x.pre.act : SameFeature(k, x.pre, x.post, x.c)
+    \* managed features and time are protected from attribute updates, enabled or not
+    /\ ManagedKey(x.c) => (~x.ok /\ FullEq(x.post, x.pre))
 
 \* --- C11 ---------------------------------------------------------------
 P_C11(x) == (IsEdit(x.c) /\ Refused(x)) => (FullEq(x.post, x.pre) /\ x.emit = <<>>)
@@ -226,7 +281,8 @@ NodeCreated(c) == IF c[1] = KAddNode THEN c[2] ELSE c[4]
 P_C20(x) ==
     /\ (IsEdit(x.c) /\ x.ok) => (Len(x.emit) = 1 /\ (CreatesNode(x) => x.emit[1] = NodeCreated(x.c)))
     /\ (IsEdit(x.c) /\ ~x.ok) => x.emit = <<>>
-    /\ (~IsEdit(x.c)) => (Len(x.emit) = (IF x.ret THEN 1 ELSE 0))
+    /\ (x.c[1] \in {KUndo, KRedo}) => (Len(x.emit) = (IF x.ret THEN 1 ELSE 0))
+    /\ IsSwitch(x.c) => x.emit = <<>>
 
 \* --- C01: the accepted edit, then undo(), then redo() --------------------
 \* x additionally has u_ret, u_post, r_ret, r_post
@@ -241,7 +297,7 @@ P_C07(x) == (HasSeg /\ x.pf.forest /\ x.pf.seg /\ x.ok) =>
     /\ SegOK(x.post)
     /\ (x.c[1] = KPaint => \A q \in Stroke(x.c[2], x.c[3]) : x.post.seg[q] = x.c[4])
     /\ (x.c[1] = KPaint => \A q \in Pix \ Stroke(x.c[2], x.c[3]) : x.post.seg[q] = x.pre.seg[q])
-P_C08(x) == (HasSeg /\ PFValid(x.pf) /\ x.ok) => (AreaOK(x.post) /\ PosOK(x.post))
-P_C09(x) == (HasSeg /\ PFValid(x.pf) /\ x.ok) => IoUOK(x.post)
+P_C08(x) == (HasSeg /\ PFValid(x.pf) /\ x.ok /\ ~IsSwitch(x.c)) => (AreaOK(x.post) /\ PosOK(x.post) /\ ShapeOK(x.post))
+P_C09(x) == (HasSeg /\ PFValid(x.pf) /\ x.ok /\ (IsSwitch(x.c) => x.c[1] = KEnable /\ x.c[3] = 1)) => IoUOK(x.post)
 
 =============================================================================
